@@ -26,6 +26,10 @@ Definition subflags (a b : N) : bool := has b a.
 Definition callee_flags (caller requested : N) (safe : bool) : N :=
   N.land caller (if safe then N.ldiff requested (N.lor WriteStates AllowNotify) else requested).
 
+(* runtime.LoadScript: a dynamic script gets  caller's flags & ReadOnly & requested  (ReadOnly = ReadStates|AllowCall) *)
+Definition ReadOnly : N := 5.
+Definition load_flags (caller requested : N) : N := N.land (N.land caller ReadOnly) requested.
+
 (* one hop of a call chain: the flags the caller asked for, and whether the called method is marked safe *)
 Definition hop := (N * bool)%type.
 
@@ -133,7 +137,7 @@ Section Machine.
     | ILoad r body =>
         match sys_step f "System.Runtime.LoadScript" with
         | None => ([], false)
-        | Some tr0 => let '(tr, ok) := run_with (exec (callee_flags f r false)) body in (tr0 ++ tr, ok)
+        | Some tr0 => let '(tr, ok) := run_with (exec (load_flags f r)) body in (tr0 ++ tr, ok)
         end
     end.
 
